@@ -15,26 +15,26 @@ open Disp
 
 /-- **action_at_most_once.** Any number of threads, any number of `dispose()` calls per thread, any schedule:
 the action has run at most once. -/
-theorem action_at_most_once (calls : List Nat) (sched : List Nat) :
-    ((dInit calls).run dStep sched).sh.actions ≤ 1 := by
-  have h := (dInv_run calls sched).1
-  have : ((dInit calls).run dStep sched).sh.isDisposed.toNat ≤ 1 := Bool.toNat_le _
+theorem action_at_most_once (raises : Nat → Bool) (calls : List Nat) (sched : List Nat) :
+    ((dInit calls).run (dStep raises) sched).sh.actions ≤ 1 := by
+  have h := (dInv_run raises calls sched).1
+  have : ((dInit calls).run (dStep raises) sched).sh.isDisposed.toNat ≤ 1 := Bool.toNat_le _
   omega
 
 /-- **is_disposed_after_return.** In every reachable state: once any `dispose()` call has returned,
 `is_disposed` is true. -/
-theorem is_disposed_after_return (calls : List Nat) (sched : List Nat) :
-    0 < ((dInit calls).run dStep sched).sh.returned → ((dInit calls).run dStep sched).sh.isDisposed = true :=
-  (dInv_run calls sched).2
+theorem is_disposed_after_return (raises : Nat → Bool) (calls : List Nat) (sched : List Nat) :
+    0 < ((dInit calls).run (dStep raises) sched).sh.returned → ((dInit calls).run (dStep raises) sched).sh.isDisposed = true :=
+  (dInv_run raises calls sched).2
 
 /-- **action_exactly_once_when_quiet.** If some `dispose()` returned and no thread is between the lock block
 and the action call, the action has run exactly once (so: not zero times). -/
-theorem action_exactly_once_when_quiet (calls : List Nat) (sched : List Nat)
-    (hret : 0 < ((dInit calls).run dStep sched).sh.returned)
-    (hquiet : ∀ t ∈ ((dInit calls).run dStep sched).pcs, t.1 = DPc.idle) :
-    ((dInit calls).run dStep sched).sh.actions = 1 := by
-  obtain ⟨h1, h2⟩ := dInv_run calls sched
-  have hz : wsum dWon ((dInit calls).run dStep sched).pcs = 0 := by
+theorem action_exactly_once_when_quiet (raises : Nat → Bool) (calls : List Nat) (sched : List Nat)
+    (hret : 0 < ((dInit calls).run (dStep raises) sched).sh.returned)
+    (hquiet : ∀ t ∈ ((dInit calls).run (dStep raises) sched).pcs, t.1 = DPc.idle) :
+    ((dInit calls).run (dStep raises) sched).sh.actions = 1 := by
+  obtain ⟨h1, h2⟩ := dInv_run raises calls sched
+  have hz : wsum dWon ((dInit calls).run (dStep raises) sched).pcs = 0 := by
     apply wsum_eq_zero
     intro a ha
     obtain ⟨pc, n⟩ := a
@@ -43,16 +43,16 @@ theorem action_exactly_once_when_quiet (calls : List Nat) (sched : List Nat)
   rw [hz, h2 hret] at h1
   simpa using h1
 
-/-- **disposable_history.** One thread making `n+1` calls in a row: the action ran exactly once (during the
-first call), the flag is set, every call returned. -/
-theorem disposable_history (n : Nat) :
-    let s := (dInit [n + 1]).run dStep (0 :: 0 :: List.replicate n 0)
+/-- **disposable_history.** One thread making `n+1` calls in a row, whether or not the action raises: the action
+ran exactly once (during the first call), the flag is set and stays set, every call ended. -/
+theorem disposable_history (raises : Nat → Bool) (n : Nat) :
+    let s := (dInit [n + 1]).run (dStep raises) (0 :: 0 :: List.replicate n 0)
     s.sh.actions = 1 ∧ s.sh.isDisposed = true ∧ s.sh.returned = n + 1 := by
-  have h := d_seq_tail { isDisposed := true, actions := 1, returned := 1, log := [.lock 0, .action, .ret .unit] } n rfl
+  have h := d_seq_tail raises { isDisposed := true, actions := 1, returned := 1, log := [.lock 0, .action, if raises 0 then .raised else .ret .unit] } n rfl
   simp only at h
   simp only [dInit, List.map_cons, List.map_nil, Sys.run_cons]
-  have h2 : Sys.step dStep (Sys.step dStep ⟨{}, [(DPc.idle, n + 1)]⟩ 0) 0
-      = ⟨{ isDisposed := true, actions := 1, returned := 1, log := [.lock 0, .action, .ret .unit] }, [(.idle, n)]⟩ := by
+  have h2 : Sys.step (dStep raises) (Sys.step (dStep raises) ⟨{}, [(DPc.idle, n + 1)]⟩ 0) 0
+      = ⟨{ isDisposed := true, actions := 1, returned := 1, log := [.lock 0, .action, if raises 0 then .raised else .ret .unit] }, [(.idle, n)]⟩ := by
     simp [Sys.step, dStep]
   rw [h2]
   exact ⟨h.1, h.2.1, by omega⟩
@@ -101,13 +101,20 @@ theorem scheduled_exactly_once_on_scheduler (callers : List Nat) (workers : Nat)
 
 /-! Non-vacuity: concrete schedules in which the race is actually contended. -/
 
+/-- the action raises during the first call: the exception leaves `dispose()`, the flag stays set and the two
+later calls do not run the action again -/
+example : let s := (dInit [3]).run (dStep fun _ => true) [0, 0, 0, 0]
+    s.sh.actions = 1 ∧ s.sh.isDisposed = true ∧
+    s.sh.log = [.lock 0, .action, .raised, .lock 0, .ret .unit, .lock 0, .ret .unit] := by decide
+
+
 /-- three threads; thread 0 wins the flag, threads 1 and 2 go through the lock and return before thread 0
 runs the action; thread 0 then runs it and calls again: one action, 4 calls returned -/
-example : let s := (dInit [2, 1, 1]).run dStep [0, 1, 2, 0, 0]
+example : let s := (dInit [2, 1, 1]).run (dStep fun _ => false) [0, 1, 2, 0, 0]
     s.sh.actions = 1 ∧ s.sh.returned = 4 ∧ s.pcs = [(.idle, 0), (.idle, 0), (.idle, 0)] := by decide
 
 /-- after thread 1 returned and before thread 0 ran the action, `actions = 0` — "exactly once" needs quiescence -/
-example : let s := (dInit [1, 1]).run dStep [0, 1]
+example : let s := (dInit [1, 1]).run (dStep fun _ => false) [0, 1]
     s.sh.actions = 0 ∧ s.sh.returned = 1 ∧ s.sh.isDisposed = true := by decide
 
 /-- two clients call dispose(); worker 1 runs first and swaps the resource out, worker 0 runs its whole action
